@@ -24,7 +24,7 @@ from harness import c03
 from harness.c03 import (HistoryRun, backend, dyadic_state, eval_cases, judge_history, ordered_sublist, parse_case,
                          random_accessor, random_registers, static_obligations)
 
-SHARED_KEY = "standalone:shared_M_result"
+SHARED_KEY = "standalone:result_not_own_execution"
 
 
 def shared_key_for(hr):
@@ -104,20 +104,29 @@ def one_history(run, be, i):
     nops = crng.randint(nexec + 1, 10)
     # positions of the executions: the first operation is an execution
     pos = sorted([0] + crng.sample(range(1, nops), nexec - 1))
-    made = 0
-    for t in range(nops):
-        if t in pos:
-            ints, j = dyadic_state(crng, n, deterministic=(crng.random() < 0.3 and not freq_first))
-            while freq_first and sum(1 for a in ints if a != 0) < 3:
-                ints, j = dyadic_state(crng, n)
-            hr.execute(ints, j, crng.randint(4 if freq_first else 1, 8))
-            made += 1
-            if freq_first:
-                hr.accessor("freqs", made - 1, crng.random() < 0.5, True)
-        elif crng.random() < 0.08:
-            hr.final()
-        else:
-            random_accessor(crng, hr, crng.randrange(made), n)
+    import qibo
+    default_batch = qibo.get_batch_size()
+    try:
+        if freq_first and i % 10 == 2:
+            # frequencies are drawn in batches: small batch size so that shot counts hit its multiples
+            qibo.set_batch_size(crng.choice([2, 4]))
+            hr.log.append({"op": "set_batch_size", "batch_size": qibo.get_batch_size()})
+        made = 0
+        for t in range(nops):
+            if t in pos:
+                ints, j = dyadic_state(crng, n, deterministic=(crng.random() < 0.3 and not freq_first))
+                while freq_first and sum(1 for a in ints if a != 0) < 3:
+                    ints, j = dyadic_state(crng, n)
+                hr.execute(ints, j, crng.randint(4 if freq_first else 1, 8))
+                made += 1
+                if freq_first:
+                    hr.accessor("freqs", made - 1, crng.random() < 0.5, True)
+            elif crng.random() < 0.08:
+                hr.final()
+            else:
+                random_accessor(crng, hr, crng.randrange(made), n)
+    finally:
+        qibo.set_batch_size(default_batch)
     return hr
 
 
